@@ -46,7 +46,7 @@ def enumerate_cases(tier, scope):
         ['wait', 1, None, None],
         ['wait', 1, 'msg', {'d': [1]}],
     ]
-    lasts = [['value', 5], ['value', None], ['stop', 7, True], ['stop', 7, False], ['unsuccessful', 3], ['kill', 'bye'], ['kill', None], ['raise', 'e']]
+    lasts = [['value', 5], ['value', None], ['stop', 7, True], ['stop', 7, False], ['unsuccessful', 3], ['kill', 'bye'], ['kill', None], ['kill', '__nomsg__'], ['raise', 'e']]
     for first in firsts:
         for last in lasts:
             for res in (NOVALUE, 'v', None, 0, False, {'__exc__': 'boom'}, {'__tuple__': []}):
@@ -78,7 +78,7 @@ def _cases(draw, tier):
             elif kind == 'unsuccessful':
                 ret = ['unsuccessful', draw(st.integers(0, 3))]
             else:
-                ret = ['kill', draw(st.sampled_from(['m1', '', None]))]
+                ret = ['kill', draw(st.sampled_from(['m1', '', None, '__nomsg__']))]
         else:
             nxt = draw(st.integers(idx + 1, n - 1))
             if draw(st.integers(0, 2)) == 0:
@@ -126,7 +126,7 @@ def model(program, resumes, enter_resumes=None):
         elif kind == 'unsuccessful':
             return calls, {'state': 'finished', 'result': ['ok', ret[1]], 'successful': ['ok', False]}
         elif kind == 'kill':
-            return calls, {'state': 'killed', 'kill_text': ret[1]}
+            return calls, {'state': 'killed', 'kill_text': '<none>' if ret[1] == '__nomsg__' else ret[1]}
         elif kind == 'raise':
             return calls, {'state': 'excepted', 'exception': ['ProgError', [repr(ret[1])]]}
     raise AssertionError('model did not terminate')
